@@ -16,14 +16,33 @@ def commentOf (c : ColSpec) : String :=
 def abbreviate (typ : String) : String :=
   if (toLowerAscii typ).startsWith "enum" then (typ.take 4).toString else typ
 
+/-- the columns whose own definition carries PRIMARY KEY, as (table, column) pairs, read off the script.  The marker of
+    the ERD is the *column's* constraint (`element.Column.Constraint`): a key declared at table level — `PRIMARY KEY (a, b)`
+    in CREATE TABLE, ALTER TABLE ADD PRIMARY KEY — marks no column, which the repository's own golden
+    `expectOrderUserMermaidJsErd` (composite key `client_id, country`, no marker) fixes as intended. -/
+def inlineKeys (ss : List Stmt) : List (String × String) :=
+  ss.foldl (fun acc s =>
+    match s with
+    | .createTable t _ cols _ =>
+      acc.filter (·.1 != t) ++ (cols.filter (fun c => (colOf c).2)).map (fun c => (t, c.name))
+    | .dropTable t => acc.filter (·.1 != t)
+    | .addColumn t c _ => if (colOf c).2 then acc ++ [(t, c.name)] else acc
+    | .modifyColumn t c =>
+      let acc := acc.filter (· != (t, c.name))
+      if (colOf c).2 then acc ++ [(t, c.name)] else acc
+    | .dropColumn t c => acc.filter (· != (t, c))
+    | .renameColumn t o n => acc.map (fun p => if p == (t, o) then (t, n) else p)
+    | _ => acc) []
+
 /-- one attribute line: data type (enum abbreviated), name, PK/FK marker, quoted comment -/
-def attrLine (t : TableSpec) (c : ColSpec) : String :=
-  let marker := if t.pk.contains c.name then "PK" else if t.fks.any (·.col == c.name) then "FK" else ""
+def attrLine (inl : List (String × String)) (t : TableSpec) (c : ColSpec) : String :=
+  let marker := if t.pk.contains c.name && inl.contains (t.name, c.name) then "PK"
+    else if t.fks.any (·.col == c.name) then "FK" else ""
   let cmt := commentOf c
   "  " ++ abbreviate c.typ ++ " " ++ c.name ++ " " ++ marker ++ " " ++ (if cmt == "" then "" else "\"" ++ cmt ++ "\"")
 
-def entity (t : TableSpec) : String :=
-  "\n".intercalate ([" " ++ toUpperAscii t.name ++ " {"] ++ t.cols.map (attrLine t) ++ [" }"])
+def entity (inl : List (String × String)) (t : TableSpec) : String :=
+  "\n".intercalate ([" " ++ toUpperAscii t.name ++ " {"] ++ t.cols.map (attrLine inl t) ++ [" }"])
 
 /-- one many-to-one relation line per ordered pair of entities linked by at least one foreign key (labelled with the
     first such key's column) -/
@@ -31,9 +50,9 @@ def relations (t : TableSpec) : List String :=
   let firsts := t.fks.foldl (fun (acc : List FkSpec) f => if acc.any (·.refT == f.refT) then acc else acc ++ [f]) []
   firsts.map (fun f => " " ++ toUpperAscii t.name ++ " }o--|| " ++ toUpperAscii f.refT ++ ": " ++ f.col)
 
-def erd (db : DB) (need : List String) : String :=
+def erd (ss : List Stmt) (db : DB) (need : List String) : String :=
   let ts := selectDB db need
-  "erDiagram\n" ++ "\n".intercalate (ts.map entity) ++ "\n" ++ "\n".intercalate (ts.flatMap relations)
+  "erDiagram\n" ++ "\n".intercalate (ts.map (entity (inlineKeys ss))) ++ "\n" ++ "\n".intercalate (ts.flatMap relations)
 
 def hasDefault (c : ColSpec) : Bool := c.opts.any (fun o => match o with | .default _ => true | _ => false)
 
